@@ -84,10 +84,11 @@ func (u *Unit) mapKeyTerm(st *state, mi *mapInfo, k Val) string {
 }
 
 // keyString returns a representative string value for identity term id.
-func (u *Unit) keyString(id string, t types.Type) Val {
+func (u *Unit) keyString(id string, t types.Type, alloc string) Val {
 	u.ensureStrKeys()
 	p, n := app(strptrFn, id), app(strlenFn, id)
-	u.ctx.assert("strkey", and(eq(app(stridFn, p, n), id), le("0", n), le(n, "1099511627776"), le("0", p)))
+	// a key that is in a map now was allocated before now
+	u.ctx.assert("strkey", and(eq(app(stridFn, p, n), id), le("0", n), le(n, "1099511627776"), le("0", p), le(add(p, n), alloc)))
 	return Val{T: t, S: []string{p, n}}
 }
 
@@ -253,7 +254,7 @@ func (f *Frame) nextInstr(x *ssa.Next, st *state) {
 	kv := Val{T: mt.Key(), S: []string{k}}
 	var keyOut []string
 	if mi.strKey {
-		ks := u.keyString(k, mt.Key())
+		ks := u.keyString(k, mt.Key(), st.mem.alloc)
 		u.strKeys = append(u.strKeys, strKeyRec{sig: ks.S[0] + "\x00" + ks.S[1], v: ks, id: k})
 		keyOut = ks.S
 		kv = ks
